@@ -145,6 +145,17 @@ CHECKS = {
         "Trusted: ref/nzd.py + ref/tzrules.py (share no code with pyoda_time), ref/calendars Gregorian arithmetic.",
         "DESIGN.md §2 C06",
     ),
+    "C08": (
+        "exploration",
+        "Hypothesis property-based testing with grammar-generated and mutated pattern texts and input texts; result-validity oracle",
+        "For 7 pattern classes x cultures: creation of grammar-generated, edited and junk pattern texts must return a "
+        "pattern or raise InvalidPatternError; for every created pattern, formatted values and their mutations (edits, "
+        "out-of-range and 40-digit runs, NUL, non-ASCII digits, 10 kB) are parsed: no exception may escape, a success "
+        "must carry a value that re-validates through the public constructor and formats again, a failure must expose an "
+        "UnparsableValueError on request. Root causes are bucketed by (exception type, innermost pyoda_time frame).",
+        "Trusted: the validity predicates in harness/text.py (public constructors of each value type).",
+        "DESIGN.md §2 C08",
+    ),
     "C09": (
         "exploration",
         "Hypothesis property-based testing: day-number and month-line reference models, documented year rules, algebraic laws of Period.between/normalize",
